@@ -143,6 +143,90 @@ theorem returned_was_announced (c : Cfg) (s : State) (h : Bytes) (id : Ident) (f
     · rename_i r hr'; cases hdm; exact hr'
     · cases hdm
 
+/-! ### the sampling regime: `GetPeers(h, n)` for every n, every shuffle and every SRANDMEMBER draw -/
+
+/-- **C28 sampling (1)**: at most n identities, no identity twice. -/
+theorem sample_at_most_n (c : Cfg) (s : State) (h : Bytes) (n : Nat) (visits : List (Nat × List (List Char)))
+    (hv : ValidFrom c s h n [] [] visits) :
+    (getSample visits).length ≤ n ∧ ((getSample visits).map (·.1)).Nodup := by
+  refine ⟨sampleFrom_le c s h n visits [] [] (Nat.zero_le _) hv, ?_⟩
+  unfold getSample sampleFrom
+  have key : ∀ (vs : List (Nat × List (List Char))) (sel : List (Ident × Bool)), (sel.map (·.1)).Nodup →
+      ((vs.foldl (fun sel v => visit sel v.2) sel).map (·.1)).Nodup := by
+    intro vs
+    induction vs with
+    | nil => intro sel h; exact h
+    | cons v rest ih => intro sel h; exact ih _ (collapse_nodup _ _ h)
+  exact key visits [] (by simp)
+
+/-- **C28 sampling (2)**: every returned identity decodes from a stored member of a queried (live)
+window of that torrent — nothing is invented. -/
+theorem sample_from_live (c : Cfg) (s : State) (h : Bytes) (n : Nat) (visits : List (Nat × List (List Char)))
+    (hv : ValidFrom c s h n [] [] visits) (id : Ident) (hid : id ∈ (getSample visits).map (·.1)) :
+    ∃ w m b, queried c s.now w = true ∧ m ∈ members s h w ∧ deserializePeer m = .ok (id, b) := by
+  rcases sampleFrom_src c s h n visits [] [] hv id hid with h' | h'
+  · simp at h'
+  · exact h'
+
+/-- **C28 sampling (3)** lower bound: if n ≥ 1 and some queried window of the torrent holds members
+(all members written by `UpdatePeer` decode), the answer is not empty — whatever the shuffle and
+the draws. -/
+theorem sample_nonempty (c : Cfg) (s : State) (h : Bytes) (n : Nat) (hn : 1 ≤ n) (w : Nat)
+    (hq : queried c s.now w = true) (hne : members s h w ≠ [])
+    (hdec : ∀ m, m ∈ members s h w → ∃ r, deserializePeer m = .ok r)
+    (visits : List (Nat × List (List Char))) (hv : ValidFrom c s h n [] [] visits) :
+    getSample visits ≠ [] :=
+  sampleFrom_nonempty c s h n hn w hq hne hdec visits [] [] hv (Or.inr (by simp))
+
+/-- **C28 sampling (4)** lower bound: the first window visited contributes `min n |set|` drawn members,
+and every identity they decode to is returned: with a first window of at least n single-encoded
+identities the answer has exactly n peers. -/
+theorem sample_first_window (c : Cfg) (s : State) (h : Bytes) (n : Nat) (w : Nat) (picks : List (List Char))
+    (rest : List (Nat × List (List Char))) (hv : ValidFrom c s h n [] [] ((w, picks) :: rest)) :
+    picks.length = min n (members s h w).length ∧
+    ∀ id, id ∈ (decodeAll picks).map (·.1) → id ∈ (getSample ((w, picks) :: rest)).map (·.1) := by
+  obtain ⟨_, _, _, _, _, h6, _⟩ := hv
+  refine ⟨by simpa using h6, ?_⟩
+  intro id hid
+  unfold getSample
+  simp only [sampleFrom, List.foldl_cons]
+  apply sampleFrom_mono
+  unfold visit
+  exact (collapse_ids _ _ _).mpr (Or.inr hid)
+
+/-! ### the completion flag (known finding `stale-complete`) -/
+
+/-- the property as stated: a returned peer carries the completion flag it announced — i.e. the flag
+of its *latest* live announcement (here: `p` is announced last, nothing of that identity follows) -/
+def flag_is_latest_target : Prop :=
+  ∀ (c : Cfg) (s0 : State) (h : Bytes) (p : Peer), 1 ≤ c.size → 1 ≤ c.maxWindows → GoodPeer p →
+    ∀ flag, (p.ident, flag) ∈ getAll c (step c s0 (.update h p)) h → flag = p.complete
+
+def exStale : Peer := { pid := List.replicate 20 18, ip := ['1','0','.','0','.','0','.','1'], port := 0, complete := true }
+
+/-- refuted: a peer announces complete, then (restarted, cache evicted) incomplete — both members are
+live and `GetPeers` ORs the bits, so it is handed out as a seeder -/
+theorem not_flag_is_latest : ¬ flag_is_latest_target := by
+  intro hT
+  have := hT { size := 10, maxWindows := 3 } (step { size := 10, maxWindows := 3 } { now := 1005 } (.update [1] exStale))
+    [1] { exStale with complete := false } (by decide) (by decide) (by decide) true (by decide)
+  cases this
+
+/-- what does hold (partial): the flag returned for a live announcement is at least the announced one,
+and it is `true` only if some live announcement of that identity said so (`announced_peer_is_returned`);
+in particular a peer none of whose live announcements was complete is returned incomplete. -/
+theorem flag_is_latest_partial (c : Cfg) (hs : 1 ≤ c.size) (hm : 1 ≤ c.maxWindows)
+    (s0 : State) (h : Bytes) (p : Peer) (g : GoodPeer p) (later : List Op)
+    (hlive : (runFrom c (step c s0 (.update h p)) later).now < expireAt c (curWindow c s0.now)) :
+    ∃ flag, (p.ident, flag) ∈ getAll c (runFrom c (step c s0 (.update h p)) later) h ∧
+      (p.complete = true → flag = true) ∧
+      (flag = true → ∃ e ∈ (runFrom c (step c s0 (.update h p)) later).entries, e.hash = h ∧
+        deserializePeer e.member = .ok (p.ident, true)) := by
+  obtain ⟨flag, h1, h2, h3, _⟩ := announced_peer_is_returned c hs hm s0 h p g later hlive
+  refine ⟨flag, h1, h2, fun hf => ?_⟩
+  obtain ⟨e, he, he1, _, he3⟩ := h3 hf
+  exact ⟨e, he, he1, he3⟩
+
 /-! ### non-vacuity -/
 
 def exCfg : Cfg := { size := 10, maxWindows := 3 }
